@@ -6,9 +6,9 @@
   api: RP | CA n | CO n | TR | TG | ER.   k: 0 = no fault, else the k-th probe of this call faults; kind: t | i.
   beh (prefix form): K | S a b | P id | T | BR | RT | I | Ft n b | Fc n b | Fn n b | Fo b | FO ret b | Fr b | Fb b | Fp b
                    | Y hc hf body handler fin | G n b | At b | Aw b | Ap b | Aq b | Bq b | Bt b | Bw b | Bp b | J b | YD | YT a b | AC n body | GC slot n body | GN slot | GT slot | GR slot
-  Answer: per call  <outcome>|<trace>|<state>  joined by " ; ", where trace = "id:c,t,i,r …" and
+  Answer: per call  <outcome>|<trace>|<state>  joined by " ; ", where trace = "id:c,t,i,r,a …" (a = vm.curAsyncRunner != nil at the probe) and
   state = sp,sb,prgNil,stashGlobal,privNil,callLen,tryLen,iterLen,refLen,jobs,interrupted,privDepth,
-  curAsyncRunnerNil (the model has no async runner: constant 1),newTargetNil,args.
+  curAsyncRunnerNil (Vm.curAsync, negated),newTargetNil,args.
 -/
 import GojaModel.Base.Proto
 import GojaModel.C03.Model
@@ -131,10 +131,10 @@ def showState (s : Vm) : String :=
   ",".intercalate [toString s.sp, toString s.sb, b01 s.prg.isNone, b01 (s.stash == globalStash),
     b01 s.privEnv.isEmpty, toString s.callStack.length, toString s.tryStack.length,
     toString s.iterStack.length, toString s.refStack.length, toString s.jobQueue.length,
-    b01 s.interrupted, toString s.privEnv.length, "1", b01 (s.newTarget == 0), toString s.args]
+    b01 s.interrupted, toString s.privEnv.length, b01 (!s.curAsync), b01 (s.newTarget == 0), toString s.args]
 
 def showTrace (t : List Obs) : String :=
-  " ".intercalate (t.map fun o => s!"{o.id}:{o.callLen},{o.tryLen},{o.iterLen},{o.refLen}")
+  " ".intercalate (t.map fun o => s!"{o.id}:{o.callLen},{o.tryLen},{o.iterLen},{o.refLen},{b01 o.ca}")
 
 def modelFuel : Nat := 400
 
